@@ -34,6 +34,26 @@ def corrupt(data, rng):
             if rng.random() < 0.15:
                 vals = [b'\xc3\xa9', b'a b', b'a+b', b'"q"', b'', b'=']
             return data[:m.start(2)] + rng.choice(vals) + data[m.end(2):]
+    if r < 0.44:
+        # rename or drop a whole option (e.g. the main header loses its encoding)
+        ms = list(_OPT_RE.finditer(data))
+        if ms:
+            m = rng.choice(ms)
+            if rng.random() < 0.5:
+                return data[:m.start(1)] + rng.choice([b'x', b'coding', b'Length', b'len']) + data[m.end(1):]
+            end = m.end()
+            start = m.start()
+            if data[end:end + 2] == b', ':
+                end += 2
+            elif data[start - 2:start] == b', ':
+                start -= 2
+            return data[:start] + data[end:]
+    if r < 0.455:
+        # pathological metadata: very deep nesting
+        m = re.search(rb'^#\.*meta:[^\n]*length=(\d+)[^\n]*\n', data, re.M)
+        if m:
+            deep = b'[' * rng.choice([1500, 5000]) + b'\n'
+            return data[:m.start(1)] + str(len(deep)).encode() + data[m.end(1):m.end()] + deep + data[m.end() + int(m.group(1)):]
     if r < 0.50:
         i = rng.randrange(len(data))
         return data[:i] + bytes([rng.randrange(256)]) + data[i + 1:]
